@@ -121,6 +121,13 @@ func comparePositions(gen, got *rt.Node, report func(field string, want, have in
 	}
 }
 
+// c17MultiLine: a triple-quoted literal spanning three lines.
+func c17MultiLine() *rt.Node {
+	n := rt.Str("first\n second é\n")
+	n.Spell = "'''first\n second é\n'''"
+	return n
+}
+
 // c17Tree checks one program text: all stored offsets and their line/column.
 func c17Tree(w *run.Worker, prog []*rt.Node, src string) {
 	w.Eval()
@@ -171,6 +178,10 @@ func c17Trees(w *run.Worker) {
 			root := f.At(i).(*rt.Node)
 			// preceded by a line with a multi-byte rune so that line != 1 and column != offset+1
 			prog := []*rt.Node{rt.Assign("=", rt.Id("é"), rt.Str("é")), root}
+			if i%2 == 1 {
+				// every second program: also after a multi-line literal (line breaks inside a token)
+				prog = []*rt.Node{rt.Assign("=", rt.Id("é"), rt.Str("é")), rt.Assign("=", rt.Id("ml"), c17MultiLine()), root}
+			}
 			src, sites := rt.PrintProg(prog, nil)
 			c17Tree(w, prog, src)
 			if w.WantSample() && i%503 == 0 {
@@ -310,12 +321,15 @@ func c17RunFaults(w *run.Worker) {
 			rt.Assign("=", Id("x"), I(1)), rt.Assign("=", Id("z0"), I(0)),
 			rt.Assign("=", Id("l"), rt.List(I(1), I(2))), rt.Assign("=", Id("m"), rt.Map(S("k"), I(1))),
 			rt.Assign("=", Id("é"), S("日本")),
+			// line breaks INSIDE tokens (a multi-line literal, a back-quoted name): lines are counted from the text, not from the tokens
+			rt.Assign("=", Id("ml"), c17MultiLine()),
+			rt.Assign("=", rt.QId("two\nlines"), I(2)),
 		}
 	}
 	for _, f := range c17Faults() {
 		nroles := len(c17Roles(f))
 		for ri := 0; ri < nroles; ri++ {
-			for place := 0; place < 4; place++ {
+			for place := 0; place < 6; place++ {
 				if !w.Take() {
 					continue
 				}
@@ -331,9 +345,23 @@ func c17RunFaults(w *run.Worker) {
 					stmts = append(stmts, rt.ForIn("i", rt.List(I(1)), rt.Block(rt.If(rt.Bool(false), rt.Block(), rt.Block(role...)))))
 				case 3:
 					stmts = append(stmts, rt.For(nil, nil, nil, rt.Block(append(role, rt.Break())...)))
+				case 4, 5:
+					stmts = append(stmts, role...)
 				}
 				stmts = append(stmts, rt.Call("p", I(7)))
 				p := &Prog{Scripts: map[string][]*rt.Node{"s.p": stmts}, Main: "s.p", Point: PointSpec{Meas: "m"}}
+				if place >= 4 {
+					// the fault happens in a used script (one and two use() levels down): the chain names
+					// each script with a position inside that script
+					lib := append(prelude(), role...)
+					p.Scripts["lib.p"] = lib
+					main := []*rt.Node{rt.Call("p", I(1)), rt.If(rt.Bool(true), rt.Block(rt.Call("p", I(2)), rt.Call("use", S("lib.p")))), rt.Call("p", I(7))}
+					if place == 5 {
+						p.Scripts["mid.p"] = []*rt.Node{rt.Assign("=", Id("q"), I(1)), rt.Call("use", S("lib.p"))}
+						main = []*rt.Node{rt.Call("use", S("mid.p")), rt.Call("p", I(7))}
+					}
+					p.Scripts["s.p"] = main
+				}
 				w.Eval()
 				v := Differential(p)
 				src := p.Sources()["s.p"]
@@ -359,7 +387,13 @@ func c17RunFaults(w *run.Worker) {
 					w.Note("fault_without_error", 1)
 					continue
 				}
-				if msg := c17ErrPos(e, src, "s.p"); msg != "" {
+				posMsg := ""
+				if place >= 4 {
+					posMsg = c17ErrPosMulti(e, p.Sources(), "lib.p")
+				} else {
+					posMsg = c17ErrPos(e, src, "s.p")
+				}
+				if msg := posMsg; msg != "" {
 					w.Violate("C17:run-fault:"+strings.SplitN(msg, ":", 2)[0], msg+"\nerror: "+e.Error()+"\n"+src, mk)
 					continue
 				}
@@ -403,6 +437,29 @@ func c17ErrPos(e *errchain.PlError, src, name string) string {
 		ln, col := scanLnCol(src, p.Pos)
 		if ln != p.Ln || col != p.Col {
 			return fmt.Sprintf("lncol-inconsistent: entry %d offset %d rendered %d:%d, it is %d:%d", i, p.Pos, p.Ln, p.Col, ln, col)
+		}
+	}
+	return ""
+}
+
+// c17ErrPosMulti: every chain entry lies inside the script it names, with consistent line/column.
+func c17ErrPosMulti(e *errchain.PlError, srcs map[string]string, first string) string {
+	if len(e.PosChain) == 0 {
+		return "empty-chain: the error carries no position"
+	}
+	for i, p := range e.PosChain {
+		if i == 0 && p.File != first {
+			return fmt.Sprintf("wrong-file: first entry names %q, the fault is in %q", p.File, first)
+		}
+		src, known := srcs[p.File]
+		if !known {
+			return fmt.Sprintf("wrong-file: entry %d names unknown script %q", i, p.File)
+		}
+		if p.Pos < 0 || p.Pos >= len(src) {
+			return fmt.Sprintf("offset-out-of-source: entry %d has offset %d in %q (%d bytes)", i, p.Pos, p.File, len(src))
+		}
+		if ln, col := scanLnCol(src, p.Pos); ln != p.Ln || col != p.Col {
+			return fmt.Sprintf("lncol-inconsistent: entry %d offset %d of %q rendered %d:%d, it is %d:%d", i, p.Pos, p.File, p.Ln, p.Col, ln, col)
 		}
 	}
 	return ""
@@ -492,6 +549,7 @@ func c17OneChain(w *run.Worker, idx []int, files []string, poss []token.LnColPos
 
 func c17Run(w *run.Worker) {
 	c17Chains(w)
+	c17LoadFaults(w)
 	c17Lookup(w)
 	c17RunFaults(w)
 	c17Trees(w)
@@ -575,6 +633,13 @@ func c17Replay(raw json.RawMessage) (bool, string) {
 		}
 		return false, "position ok: " + v.Real.Err.Error()
 	}
+	if c.Part == "load-fault" {
+		class, msg, rejected := c17LoadFaultCheck(c.Source)
+		if !rejected {
+			return false, "accepted"
+		}
+		return class != "", class + " " + msg
+	}
 	if c.Part == "chain" && len(c.Chain) > 0 && c.Msg >= 0 && c.Msg < len(c17Messages) {
 		f := func(i int) (string, token.LnColPos) {
 			return c17ChainFiles[c.Chain[i]%len(c17ChainFiles)], c17ChainPoss[(c.Chain[i]/len(c17ChainFiles))%len(c17ChainPoss)]
@@ -599,7 +664,7 @@ func init() {
 		Rule: "(A) every program of the C06 generator (all node kinds), preceded by a line containing a multi-byte rune, in base layout and with one layout insertion (LF, CRLF, bare CR, comment, semicolon, blanks) at every site: every position field of the parsed tree against the printer's token offset, line/column against an independent scan, StartPos() inside the node; " +
 			"(B) all 9841 texts of length <=8 over {a, newline, é} x every offset -1..len+1: PosCache.LnCol == LnCol == independent scan, invalid offsets rejected; " +
 			"(C) 31 run-time faults x 16 syntactic roles x 4 nesting places: script name, 0 <= offset < len(source), offset inside the statement at fault, line/column consistent, chain = call sites; " +
-			"(D) all chains of 1..4 positions over 2 file names x 3 positions x 7 message texts (format verbs, line breaks, quotes, empty): Error() rendering verbatim, JSON round trip, Copy()+ChainAppend isolation (also with spare capacity)",
+			"(E) 8 load-time faults recorded by node constructors x 10 roles x 7 preceding texts (incl. line breaks inside tokens): positioned PlError inside the source; (D) all chains of 1..4 positions over 2 file names x 3 positions x 7 message texts (format verbs, line breaks, quotes, empty): Error() rendering verbatim, JSON round trip, Copy()+ChainAppend isolation (also with spare capacity)",
 		Assumptions: []string{"load-time error positions are decided by C08 with the same offset oracle"},
 		Run:            c17Run,
 		Replay:         c17Replay,
